@@ -175,6 +175,7 @@ def gen_model(r):
     classes = []
     info = {}
     cbs = {}
+    extra = []
     for i in reversed(range(LEVELS)):
         msig = r.choice(sigs)
         isig = r.choice([s for s in sigs if len(s) <= 2])
@@ -194,6 +195,12 @@ def gen_model(r):
             # a user collection class: an Iterable subclass that declares, with its own signatures, methods that the
             # library's collection classes also have (Count, First) - its own declaration is the one that binds
             ms.append({"name": "jc", "params": [], "ret": "JC[L%d]" % (i + 1)})
+            # a plain subclass of an Iterable[...] subclass: still a collection of the next level
+            ms.append({"name": "glc", "params": [], "ret": "GLC%d" % (i + 1)})
+            extra.append({"name": "LC%d" % (i + 1), "base": "Iterable[L%d]" % (i + 1), "methods": []})
+            extra.append({"name": "GLC%d" % (i + 1), "base": "LC%d" % (i + 1), "methods": []})
+        classes += extra
+        extra = []
         classes.append({"name": "L%d" % i, "methods": ms})
         info[i] = {"m": msig, "items": isig, "items_out": items_out}
     jc_sigs = {"Count": r.choice([[("min_pt", None)], [("min_pt", None), ("eta", "2.5")], [("a", None), ("b", None)]]),
@@ -287,7 +294,11 @@ class QueryGen:
             a, b = self.body(level, depth, v), self.body(level, depth, v)
             return gen.binop(ast.Add, a[0], b[0]), gen.binop(ast.Add, a[1], b[1])
         # the collection of the next level
-        it, it_x = self.typed_call(cls.items, self.info[level]["items"], A(N(v), "items"), A(N(v), self.info[level]["items_out"]), v, True)
+        if r.random() < 0.25:
+            it, it_x = call(A(N(v), "glc"), []), call(A(N(v), "glc"), [])
+            self.sites += 1
+        else:
+            it, it_x = self.typed_call(cls.items, self.info[level]["items"], A(N(v), "items"), A(N(v), self.info[level]["items_out"]), v, True)
         if k == "count":
             return call(A(it, "Count"), []), call(A(it_x, "Count"), [])
         if k == "dictnest":
